@@ -104,11 +104,26 @@ def _table(run, prog, eng, fname, kind):
         consts |= fconsts[f]
     # domain: the wildcard literal, two fresh concrete values, and every other literal the code
     # compares this field with (a second, undocumented "wildcard" would otherwise go unnoticed)
+    # a field whose *truth value* the code consults (`x or DEFAULT`, `if not x`) has one more class: 0, a legal concrete id
+    truthy = set()
+    for tm in conds:
+        for s_ in [tm] + list(subterms(tm)):
+            ops = ()
+            if s_[0] == "bool":
+                ops = s_[2]
+            elif s_[0] == "unop" and s_[1] == "not":
+                ops = (s_[2],)
+            elif s_ is tm:
+                ops = (s_,)
+            for o in ops:
+                fo = field_of(o) if isinstance(o, tuple) else None
+                if fo:
+                    truthy.add(fo[1])
     dom = {}
     for f in FIELDS:
         w = WILD[f] if WILD[f] is not None else 0xFFFF
         cs = [c for c in (1, 2, 3, 5, 7) if c not in consts][:2]
-        dom[f] = [w] + cs + sorted(c for c in fconsts[f] if c != w)[:2]
+        dom[f] = [w] + cs + sorted(c for c in fconsts[f] if c != w)[:2] + ([0] if f in truthy else [])
     egid, declared = 0x0A, frozenset({0x0A, 0x0B})
     cases = bad = 0
     table = {}
